@@ -152,6 +152,13 @@ def normalise(cm, version, side):
             e.pop("headloss_curve", None)  # the curve object next to its name: compared through curves
         if cls == "Pump" and isinstance(e.get("efficiency"), dict):
             e["efficiency"] = e["efficiency"].get("name")  # the curve object: compared through curves
+        if cls == "Pump" and "initial_setting" in e:
+            # [STATUS] holds ONE word per link: a closed pump has no place for a speed setting, and a speed setting of 1.0
+            # is the format's default (InpNorm.normPump)
+            if str(e.get("initial_status")).upper() in ("CLOSED", "0"):
+                e.pop("initial_setting")
+            elif e["initial_setting"] is None:
+                e["initial_setting"] = 1.0
     for s in cm["sources"]:
         if s.get("pattern") == "":
             s["pattern"] = None
@@ -173,6 +180,8 @@ def normalise(cm, version, side):
         if a[0] == "val" and a[3] == "head" and a[1] in ("Tank", "Junction") and a[2] in cm["nodes"]:
             a[3] = "level" if a[1] == "Tank" else "pressure"
             a[5] = a[5] - cm["nodes"][a[2]]["elevation"]
+    for r in cm["rules"]:
+        r["cond"] = of_groups(cnf(r["cond"]))  # InpNorm.ofGroups (cnf c)
     for (g, k) in EXCLUDED_OPTIONS:
         o[g].pop(k, None)
     if version == 2.0:
@@ -1151,6 +1160,19 @@ def cnf(c):
     return [[c]]
 
 
+def of_groups(gs):
+    """the canonical tree of an AND of OR-groups (left-nested), InpNorm.ofGroups"""
+    def grp(g):
+        t = g[0]
+        for a in g[1:]:
+            t = ["or", t, a]
+        return t
+    t = grp(gs[0])
+    for g in gs[1:]:
+        t = ["and", t, grp(g)]
+    return t
+
+
 def cond_shape(c):
     return [c[0], cond_shape(c[1]), cond_shape(c[2])] if c[0] in ("and", "or") else "atom"
 
@@ -1231,13 +1253,7 @@ class Comparer:
                                 self.num("vertices", cls, k, p + "[%d][%d]" % (i, j), va[j], vb[j])
                 elif k == "initial_setting":
                     if cls in ("HeadPump", "PowerPump"):
-                        # [STATUS] holds ONE word per link: a closed pump has no place for a speed setting, and a speed
-                        # setting of 1.0 is the format's default (not written)
-                        a = 1.0 if x[k] is None else x[k]
-                        b = 1.0 if y[k] is None else y[k]
-                        if x.get("initial_status") in ("Closed", "CLOSED", 0):
-                            continue
-                        self.num("status", cls, k, p, a, b)
+                        self.num("status", cls, k, p, x[k], y[k])
                     elif cls == "Valve":
                         vt = x.get("valve_type")
                         self.num("valves", cls, k, p, x[k], y[k], alt={"PRV": "PRV", "PSV": "PRV", "PBV": "PRV", "FCV": "FCV", "TCV": "TCV"}.get(vt))
@@ -1409,7 +1425,7 @@ class Comparer:
             gx, gy = cnf(x["cond"]), cnf(y["cond"])
             if [len(g) for g in gx] != [len(g) for g in gy]:
                 fx, fy = flatten_cond(x["cond"]), flatten_cond(y["cond"])
-                if [a[:5] for _, a in fx] == [a[:5] for _, a in fy]:
+                if {json.dumps(a[:5]) for _, a in fx} == {json.dumps(a[:5]) for _, a in fy}:
                     self.fail("rules-condition-mixed-and-or-regrouped", p + "/cond", x["cond"], y["cond"], "same clauses, other grouping: %s -> %s" % (
                         [len(g) for g in gx], [len(g) for g in gy]))
                 else:
@@ -1568,6 +1584,9 @@ class C12(Check):
                 return fails
             m2 = canon(wntr, w2)
             c2 = normalise(m2, version, "reread")
+            for nm, cc in (("original", c0), ("re-read", c2)):
+                if normalise(cc, version, "again") != cc:
+                    raise BrokenTie("the normalisation is not idempotent on the %s model of case %s (theorem second_cycle_idempotent models it)" % (nm, label))
             seen = set()
             for (key, path, old, new, note) in Comparer(prec, wn, units, version, m0).run(c0, c2):
                 if ctx:
